@@ -181,9 +181,7 @@ fn incremental_inner(input: &[u8], p: &P, rg: &RefGame, aspects: i64) -> Result<
 			de::parse_metadata(&mut r, &mut state, None).map_err(|x| e("inc-error", format!("parse_metadata failed on a well-formed replay: {}", x)))?;
 		}
 		let g = read_slp_default(input).map_err(|f| e("oneshot-failed", format!("one-shot read failed: {}", f.describe())))?;
-		if state.start() != &g.start {
-			return Err(e("final-start", "incremental start != one-shot start".into()));
-		}
+		start_eq(state.start(), &g.start, true).map_err(|m| e("final-start", format!("incremental start != one-shot start: {}", m)))?;
 		if state.end() != &g.end {
 			return Err(e("final-end", format!("incremental end {:?} != one-shot end {:?}", state.end(), g.end)));
 		}
